@@ -177,6 +177,8 @@ class Summaries:
             v = new_int(m[0], m[1])
         elif region and region[0] == "const" and region[3] is not None:
             v = new_int(region[3][0], region[3][1])
+        elif region and region[0] == "static":
+            return new_ptr(("staticelem", region[1]))
         return new_ptr(("val", v))
 
     # -- slices --------------------------------------------------------------------
